@@ -597,7 +597,8 @@ func decide(c *mon.C, upgrader string, cfg Cfg, req *gen.Req, protoHdrs, extHdrs
 			c.Fail(sigp+"/success-headers", "101 response lacks Upgrade: websocket / Connection: Upgrade", det())
 			return false
 		}
-		if req.Key != "" && v.Class == ref.MustAccept {
+		if req.Key != "" {
+			// (also for requests whose acceptance is OPEN: IF a 101 is written, it answers the key received)
 			if got, want := ri.header.Get("Sec-Websocket-Accept"), ref.Accept(req.Key); got != want {
 				c.Fail(sigp+"/accept-value", fmt.Sprintf("Sec-WebSocket-Accept is %q, want %q for key %q", got, want, req.Key), det())
 				return false
